@@ -153,7 +153,8 @@ def random_scenario(rng, n_min=3, n_max=8, norm=None):
             nkw.append(rng.randint(0, len(args[-1])) if rng.random() < 0.3 else 0)
         s = {"N": N, "kind": kind, "args": args, "deps": deps, "reg": reg, "wof": wof, "side": side,
              "nkw": nkw, "norm": rng.random() < 0.5 if norm is None else norm,
-             "scopes": [rng.choice([[], [], ["a"], ["b"], ["a", 1], ["a", "x"]]) for _ in range(N)]}
+             "scopes": [rng.choice([[], [], ["a"], ["b"], ["a", 1], ["a", "x"]]) for _ in range(N)],
+             "falsy_stores": rng.random() < 0.2}
         if ok and wellformed(s) and any(r == "stored" for r in reg):
             return s
 
@@ -367,6 +368,11 @@ class Universe:
         class TermStore(uberjob.ValueStore):
             def __init__(self, n):
                 self.n = n
+
+            def __bool__(self):
+                # a store object may well be falsy (e.g. one that defines __len__ as the number of records it
+                # holds): uberjob must ask `is None`, never rely on truthiness
+                return not s.get("falsy_stores", False)
 
             def read(self):
                 U.enter("read", self.n)
